@@ -10,3 +10,5 @@ for c in "$@"; do
 done
 git -C /repo checkout -- .
 git -C /repo status --short | head -3
+# the generated models were regenerated from the changed tree: bring them back to the restored tree
+python3 tools/rs2v/main.py /repo/src coq/gen >/dev/null 2>&1
